@@ -32,6 +32,7 @@ def run(idx, rep, tier):
     r1_r2(idx, rep)
     r3(idx, rep)
     r4_r5_r7(idx, rep)
+    unmatched_step(idx, rep)
     r6(idx, rep)
     # how the run is driven is invisible to the match part: `collecting` (set by collect() only) is read by the generator's unmatched step
     # and by nothing else — a component that looked at it would behave differently under next()/fast_forward() than under collect()
@@ -160,6 +161,31 @@ def r3(idx, rep):
     rep.check(bool(idx_app) and not extra, "R3", f"{fi.file}::CsvPath.collect no work between the n-th line and the cut-off", f"calls after the append: {extra}", K.where(fi, lp))
 
 
+def unmatched_step(idx, rep):
+    """Keeping unmatched lines is what only a collecting run does.  That step must not be able to end the run: a collect() that raises
+    where next()/fast_forward() complete is not the same run.  CsvPath.next is interpreted (with the real limit_collection) on lines
+    that do not match — among them a blank line and a line too short for the collected header — once collecting, once not."""
+    fi = idx.method("CsvPath", "next")
+    rep.analysed(fi, idx.method("CsvPath", "limit_collection"))
+    lines = [["1", "2", "3"], [], ["4"]]
+    ends = {}
+    for collecting in (False, True):
+        it = Interp(idx, types={"self": "CsvPath"}, unknown_calls="residual", inline_all={"CsvPath"}, inline={"CsvPath.limit_collection", "CsvPath.limit_collection_to"},
+                    domains={"self.scanner": [Obj("scanner")]},
+                    handlers={"self._next_line": lambda i, c, r, a, k: [list(x) for x in lines], "self._consider_line": lambda i, c, r, a, k: False,
+                              "self.finalize": lambda i, c, r, a, k: i.record_call("finalize")})
+        store = {"self.stopped": False, "self.unmatched": None, "self.will_run": True, "self.collecting": collecting, "self.unmatched_available": True,
+                 "self." + K.names(idx)["limit"]: [1], "self.limit_collection_to": [1], "self.line_monitor.physical_end_line_count": 3,
+                 "self.line_monitor.physical_line_number": 1, "self.identity": "id"}
+        ps = it.run_all(fi, args={"csvpath": None}, store=store)
+        ends[collecting] = sorted({(p.result[0], p.result[1] if p.result[0] == "raise" else None, bool(p.calls("finalize")), p.final_store.get("self.stopped")) for p in ps})
+    ok = ends[True] == ends[False] and all(e[0] == "return" for e in ends[True])
+    rep.check(ok, "R2", f"{fi.file}::CsvPath.next keeping unmatched lines cannot end the run",
+              f"three lines that do not match ([1,2,3], a blank line, [4]) under unmatched-mode keep with collect(1): a collecting run ends {ends[True]}, "
+              f"a non-collecting run ends {ends[False]} (outcome, exception, finalized, stopped); documented: the same — collect() must not raise where next() and fast_forward() complete",
+              K.where(fi, fi.node))
+
+
 def r4_r5_r7(idx, rep):
     fi, rows = NM.rows(idx, nlines=3)
     rep.analysed(fi)
@@ -189,9 +215,11 @@ def r4_r5_r7(idx, rep):
             if p.atom(f"stops(L{i})"):
                 stopped = True
         nm = lambda v: getattr(v, "name", getattr(v, "text", v))
+        # (the model runs without a collect() projection: an unmatched line kept as it is and one passed through the projection are the same line)
+        un = lambda v: f"limited({nm(v)})" if isinstance(nm(v), str) and nm(v).startswith("L") else nm(v)
         got_y = [("yield", nm(v)) for k, kk, v in p.trace if k == "yield"]
-        got_u = [("unmatched", nm(v)) for v in (p.final_store.get("self.unmatched") or [])]
-        got_u += [("unmatched", nm(v)) for k, kk, v in p.trace if k == "call" and kk == "unmatched.append"]
+        got_u = [("unmatched", un(v)) for v in (p.final_store.get("self.unmatched") or [])]
+        got_u += [("unmatched", un(v)) for k, kk, v in p.trace if k == "call" and kk == "unmatched.append"]
         if got_y != [w for w in want if w[0] == "yield"] or got_u != [w for w in want if w[0] == "unmatched"]:
             bad.setdefault("partition", f"{n} lines {cfg}: yields {got_y}, unmatched {got_u}; documented {want} (each line yielded or, with unmatched-mode keep while collecting, kept as unmatched — once, in order, none after the stop)")
         cons = [v.text for k, kk, v in p.trace if k == "call" and kk == "_consider_line"]
